@@ -234,7 +234,10 @@ def run(chk):
                 "factor zero) x widths 1..12 x signed/unsigned with EVERY raw value; widths 13..64 at both ends, around 0 and random "
                 "interior; value tables of 0..20 labels (duplicate labels, int/str key collisions, about 30%% of the labels spelled like "
                 "numbers: '1', '2.5e1', ' 7 ', 'NaN', ... on keys they do not scale to); phys2raw on labels and on "
-                "arbitrary decimals incl. exact .5 ties.  non-trivial = scaling other than (1, 0) with raw != 0, or a table "
+                "arbitrary decimals incl. exact .5 ties.  histories on one live Signal object: after each edit of the value table "
+                "(add_values, values = dict, values[k] = v, del, pop, clear, update, a label moving to another key) and of "
+                "factor/offset/size/is_signed/set_min(None)/set_max(None), every label, removed label, table key and range end is "
+                "converted again and compared with the oracle for the CURRENT state and with a freshly built signal.  non-trivial = scaling other than (1, 0) with raw != 0, or a table "
                 "look-up, or a rounding decimal operation; distinct by inputs" % len(SCALINGS))
     ok = chk.build_and_audit()
     cm = core.import_impl()
@@ -555,6 +558,215 @@ def run(chk):
     chk.sample(dict(values={1: "L0", "1": "L1", 2: "L2"}, normalised={1: "L1", 2: "L2"}, label="L1", raw=1))
     chk.sample(dict(outside_envelope=dict(factor="1E-30", offset="1", raw=7, phys=str(7 * D("1E-30") + D("1")), back=0),
                     note="31 significant digits: outside the property's quantifier, tied to the model, not judged"))
+
+    # ---------------- 4. histories on ONE live Signal object ----------------
+    # The value table and the scaling fields are public and mutable.  After every edit, through every public route, the
+    # conversions must answer for the CURRENT table / fields (= what a freshly built signal with them answers).
+    LABEL_POOL = ["L%d" % i for i in range(8)] + ["1", "2", "7", "2.5e1", " 7 ", "NaN", "1e2", "-3"]
+    FACTORS = ["1", "0.1", "0.3", "-0.25", "2.5E+3", "0.333333333333", "1E-7", "5", "0.5", "-7E-3"]
+    OFFSETS = ["0", "-40", "1E+3", "0.0625", "-327.68", "7", "-0.50", "1E-20"]
+
+    def check_live(sig, cur, size, signed, Fd, Od, hist, gone):
+        inp = dict(history=list(hist), size=size, is_signed=signed, factor=str(Fd), offset=str(Od), current_values={repr(k): v for k, v in cur.items()})
+        F, O = Fraction(Fd), Fraction(Od)
+        mf, ef = tup(Fd)
+        mo, eo = tup(Od)
+        lo, hi = raw_range(size, signed)
+        try:
+            fresh = C.Signal("fresh", size=size, is_signed=signed, factor=Fd, offset=Od, values=dict(cur))
+            if dict(sig.values) != cur or list(sig.values.keys()) != list(cur.keys()):
+                chk.violation("history-table", "the signal's value table is not what the edits made it", inp, cur, dict(sig.values))
+                return False
+            # label -> key for every label of the current table; labels that left the table are no labels any more
+            labs = list(dict.fromkeys(cur.values()))
+            out406, args406, texts = [], [], []
+            for lab in labs + [g for g in gone if g not in cur.values()] + ["zz"]:
+                try:
+                    r = sig.phys2raw(lab)
+                    got = [1, r]
+                except Exception:
+                    r, got = None, [0]
+                try:
+                    rf = fresh.phys2raw(lab)
+                except Exception:
+                    rf = None
+                kind, pv_ = parse_dec(lab)
+                chk.case(("hist-label", tuple(hist), lab), True)
+                if lab in cur.values():
+                    exp = next(k for k, v in cur.items() if v == lab)
+                    chk.count("history-label-lookups")
+                    if r != exp or type(r) is not int:
+                        chk.violation("history-label-to-raw", "after editing the value table a label does not convert to its current raw key",
+                                      dict(inp, label=lab), exp, r)
+                    elif list(cur.values()).count(lab) == 1 and sig.raw2phys(r, decode_to_str=True) != lab:
+                        chk.violation("history-label-roundtrip", "label -> raw -> named value does not return the label after an edit", dict(inp, label=lab), lab, None)
+                elif kind == "invalid":
+                    chk.count("history-removed-label-lookups")
+                    if r is not None:
+                        chk.violation("history-stale-label", "a text that is no longer a label (and no number) still converts to a raw key",
+                                      dict(inp, label=lab), "raises", r)
+                if r != rf:
+                    chk.violation("history-vs-fresh", "phys2raw(str) on the edited signal differs from a freshly built signal with the same table and fields",
+                                  dict(inp, label=lab), rf, r)
+                if kind == "special" and lab not in cur.values():
+                    continue
+                texts.append(lab)
+                args406 += [lab_id(lab) if lab != "zz" else 0] + ([1] + tup(pv_) if kind == "num" else [0, 0, 0])
+                out406.append(got if isinstance(got[-1], int) else [0])
+            # raw -> named value / number, exactness, round trip, for the current fields
+            raws = sorted({k for k in cur if lo <= k <= hi} | {lo, hi, 0 if lo <= 0 else lo, rng.randrange(lo, hi + 1), rng.randrange(lo, hi + 1)})
+            out403 = []
+            for raw in raws:
+                phys = sig.raw2phys(raw)
+                nv = C.DecodedSignal(raw, sig).named_value
+                back = sig.phys2raw(phys)
+                chk.case(("hist-raw", tuple(hist), raw), True)
+                chk.count("history-raw-conversions")
+                if inside_envelope(raw, mf, ef, mo, eo):
+                    if Fraction(phys) != raw * F + O:
+                        chk.violation("history-raw2phys", "raw2phys does not follow the signal's current factor/offset", dict(inp, raw=raw), str(raw * F + O), str(phys))
+                    if back != raw:
+                        chk.violation("history-roundtrip", "phys2raw(raw2phys(raw)) != raw after an edit", dict(inp, raw=raw), raw, back)
+                expn = cur[raw] if raw in cur else phys
+                if (nv != expn) or (raw not in cur and nv.as_tuple() != phys.as_tuple()):
+                    chk.violation("history-named", "named value does not follow the current value table", dict(inp, raw=raw), str(expn), str(nv))
+                nf = fresh.raw2phys(raw, decode_to_str=True)
+                if type(nf) is not type(nv) or (nf != nv) or fresh.raw2phys(raw).as_tuple() != phys.as_tuple():
+                    chk.violation("history-vs-fresh", "raw2phys on the edited signal differs from a freshly built signal", dict(inp, raw=raw), str(nf), str(nv))
+                out403 += [tup(phys), [0, lab_id(nv)] if isinstance(nv, str) else [1] + tup(nv), [1, back]]
+            rr = tuple(sig.calculate_raw_range())
+            cmin, cmax = sig.calc_min(), sig.calc_max()
+            if rr != (lo, hi):
+                chk.violation("history-raw-range", "calculate_raw_range does not follow the current size/is_signed", inp, (lo, hi), rr)
+            if Fraction(cmin) != Fraction(fresh.min) or Fraction(cmax) != Fraction(fresh.max) or \
+                    (inside_envelope(lo, mf, ef, mo, eo) and Fraction(cmin) != lo * F + O) or (inside_envelope(hi, mf, ef, mo, eo) and Fraction(cmax) != hi * F + O):
+                chk.violation("history-limits", "calc_min/calc_max are not the images of the current raw range under the current scaling", inp,
+                              (str(fresh.min), str(fresh.max)), (str(cmin), str(cmax)))
+        except Exception as e:
+            chk.violation("exception", "a conversion raised on an edited signal", inp, None, repr(e))
+            return False
+        header = [size, int(signed)] + tup(Fd) + tup(Od)
+        tflat = [z for k, v in cur.items() for z in (k, lab_id(v))]
+        add(402, [header, tflat], [tup(sig.factor), tup(sig.offset), [rr[0], rr[1]], tup(cmin), tup(cmax), tflat], dict(history=inp))
+        add(403, [header, tflat, raws], out403, dict(history=inp, raws=raws))
+        add(406, [header, tflat, args406], out406, dict(history=inp, str_arguments=texts))
+        return True
+
+    nhist = 250 if not thorough else 4000
+    for h in range(nhist):
+        size, signed = rng.choice([3, 4, 8, 12, 16, 32, 64]), rng.random() < 0.5
+        Fd, Od = D(rng.choice(FACTORS)), D(rng.choice(OFFSETS))
+        lo, hi = raw_range(size, signed)
+
+        def rkey():
+            return rng.choice([rng.randrange(max(lo, -3), min(hi, 7) + 1), rng.randrange(max(lo, -3), min(hi, 7) + 1), rng.randrange(lo, hi + 1), hi, lo])
+        cur = {}
+        for _ in range(rng.choice([0, 1, 2, 4, 6])):
+            cur[rkey()] = rng.choice(LABEL_POOL)
+        try:
+            sig = C.Signal("live", size=size, is_signed=signed, factor=Fd, offset=Od, values=dict(cur))
+        except Exception as e:
+            chk.violation("construct-raises", "Signal(...) raised", dict(values=cur), None, repr(e))
+            continue
+        hist = ["Signal(size=%d, is_signed=%s, factor=%s, offset=%s, values=%r)" % (size, signed, Fd, Od, cur)]
+        gone = []
+        if not check_live(sig, cur, size, signed, Fd, Od, hist, gone):
+            continue
+        for step in range(rng.randrange(3, 9)):
+            op = rng.choice(["add_values", "add_values", "assign", "assign", "setitem", "setitem", "setitem", "del", "del", "pop", "clear", "update",
+                             "move", "move", "factor", "offset", "size", "is_signed", "set_min_none", "set_max_none"])
+            before = list(cur.values())
+            try:
+                if op == "add_values":
+                    k, lab = rkey(), rng.choice(LABEL_POOL)
+                    arg = rng.choice([k, str(k), hex(k) if k >= 0 else str(k)])
+                    sig.add_values(arg, lab)
+                    cur[k] = lab
+                    hist.append("add_values(%r, %r)" % (arg, lab))
+                elif op == "assign":
+                    new = {}
+                    for _ in range(rng.choice([0, 1, 2, 4, 6])):
+                        new[rkey()] = rng.choice(LABEL_POOL)
+                    sig.values = dict(new)
+                    cur = dict(new)
+                    hist.append("values = %r" % (new,))
+                elif op == "setitem":
+                    k = rng.choice(list(cur)) if cur and rng.random() < 0.5 else rkey()
+                    lab = rng.choice(LABEL_POOL)
+                    sig.values[k] = lab
+                    cur[k] = lab
+                    hist.append("values[%d] = %r" % (k, lab))
+                elif op in ("del", "pop"):
+                    if not cur:
+                        continue
+                    k = rng.choice(list(cur))
+                    if op == "del":
+                        del sig.values[k]
+                    else:
+                        sig.values.pop(k)
+                    del cur[k]
+                    hist.append("%s values[%d]" % (op, k))
+                elif op == "clear":
+                    sig.values.clear()
+                    cur.clear()
+                    hist.append("values.clear()")
+                elif op == "update":
+                    new = {rkey(): rng.choice(LABEL_POOL) for _ in range(rng.choice([1, 2, 3]))}
+                    sig.values.update(new)
+                    cur.update(new)
+                    hist.append("values.update(%r)" % (new,))
+                elif op == "move":                    # a label moves to another key
+                    if not cur:
+                        continue
+                    k = rng.choice(list(cur))
+                    lab = cur[k]
+                    k2 = rkey()
+                    if k2 == k:
+                        continue
+                    del sig.values[k]
+                    sig.values[k2] = lab
+                    del cur[k]
+                    cur[k2] = lab
+                    hist.append("del values[%d]; values[%d] = %r" % (k, k2, lab))
+                elif op == "factor":
+                    Fd = D(rng.choice(FACTORS))
+                    sig.factor = Fd
+                    hist.append("factor = %s" % Fd)
+                elif op == "offset":
+                    Od = D(rng.choice(OFFSETS))
+                    sig.offset = Od
+                    hist.append("offset = %s" % Od)
+                elif op == "size":
+                    size = rng.choice([1, 2, 5, 8, 12, 13, 24, 32, 63, 64])
+                    sig.size = size
+                    lo, hi = raw_range(size, signed)
+                    hist.append("size = %d" % size)
+                elif op == "is_signed":
+                    signed = not signed
+                    sig.is_signed = signed
+                    lo, hi = raw_range(size, signed)
+                    hist.append("is_signed = %s" % signed)
+                else:
+                    which = "min" if op == "set_min_none" else "max"
+                    got = sig.set_min(None) if which == "min" else sig.set_max(None)
+                    hist.append("set_%s(None)" % which)
+                    bound = lo if which == "min" else hi
+                    stored = sig.min if which == "min" else sig.max
+                    mf, ef = tup(Fd)
+                    mo, eo = tup(Od)
+                    if got is not stored or (inside_envelope(bound, mf, ef, mo, eo) and Fraction(stored) != bound * Fraction(Fd) + Fraction(Od)):
+                        chk.violation("history-set-limit", "set_%s(None) does not store the image of the current raw bound" % which,
+                                      dict(history=list(hist), size=size, is_signed=signed), str(bound * Fraction(Fd) + Fraction(Od)), str(stored))
+            except Exception as e:
+                chk.violation("exception", "editing the signal raised", dict(history=list(hist), op=op), None, repr(e))
+                break
+            chk.count("history-op-" + op)
+            gone = [l for l in dict.fromkeys(gone + before) if l not in cur.values()]
+            if not check_live(sig, cur, size, signed, Fd, Od, hist, gone):
+                break
+    chk.count("histories", nhist)
+    chk.sample(dict(history=["Signal(values={0: 'Off', 3: 'L1'})", "phys2raw('L1') -> 3", "values = {5: 'L1', 6: 'New'}", "phys2raw('L1') -> 5",
+                             "phys2raw('New') -> 6", "del values[5]", "phys2raw('L1') raises"]))
 
     # ---------------- model runs ----------------
     if not ok:
